@@ -66,19 +66,26 @@ def find(sf, name):
 
 def triage(ctx, res, sf):
     by_sig = {}
-    stats = {"req": 0, "must": 0, "accepted": 0, "bursts": 0, "reload_ok": 0, "reload_fail": 0}
+    stats = {"req": 0, "replays_rejected": 0, "replays_after_reload_rejected": 0, "accepted": 0, "bursts": 0, "reload_ok": 0, "reload_fail": 0}
     for r in res:
         if r["error"]:
             raise vf.Infra("NonceTrace error: %s\n%s" % (r["error"], r.get("out_tail", "")))
         events = vf.load_trace(r["file"])
+        reloaded = False
         for e in events:
+            if e["ev"] == "Reset":
+                reloaded = False
             if e["ev"] == "Req":
                 stats["req"] += 1
                 stats["accepted"] += 1 if e["status"] == 202 else 0
+                if e.get("kind") in ("replay", "samenonce") and e["status"] == 401:
+                    stats["replays_rejected"] += 1
+                    stats["replays_after_reload_rejected"] += 1 if reloaded else 0
             elif e["ev"] == "Burst":
                 stats["bursts"] += 1
             elif e["ev"] == "Reload":
                 stats["reload_ok" if e.get("ok") else "reload_fail"] += 1
+                reloaded = reloaded or bool(e.get("ok"))
         fails = list(r["fails"])
         if r["matched"] < r["total"]:
             fails.append((r["matched"] + 1, events[r["matched"]].get("ev", "?"), "rejected"))
@@ -132,8 +139,9 @@ def run(ctx):
     if ctx.quick:
         scheds = gen(ctx, "grid", 3, kinds, [3000], grid, [0], 1)
     else:
-        scheds = gen(ctx, "grid", 5, kinds, [1000, 2999, 3000, 3001], grid, [-1, 0, 1], 2)
-        scheds += gen(ctx, "sim", 12, kinds, [1, 999, 1000, 1999, 2000, 2999, 3000, 3001], grid, [-1, 0, 1], 2, simulate=4000)
+        # sized to ~300 schedules/s on 16 cores: every schedule of <= 4 operations plus the 15k-point window grid, then long random ones
+        scheds = gen(ctx, "grid", 4, kinds, [1000, 2999, 3000, 3001], grid, [-1, 0, 1], 2)
+        scheds += gen(ctx, "sim", 12, kinds, [1, 999, 1000, 1999, 2000, 2999, 3000, 3001], [], [-1, 0, 1], 2, simulate=3000)  # ~65k schedules (TLC emits ~22 per requested behaviour)
     if not scheds:
         raise vf.Infra("no schedules generated")
     ctx.count("schedules", len(scheds))
@@ -141,7 +149,7 @@ def run(ctx):
     res, sf = execute(ctx, scheds, "nonce")
     triage(ctx, res, sf)
     c = ctx.cov["counters"]
-    if c.get("req", 0) == 0 or c.get("accepted", 0) == 0 or c.get("bursts", 0) == 0 or c.get("reload_ok", 0) == 0:
+    if c.get("req", 0) == 0 or c.get("accepted", 0) == 0 or c.get("bursts", 0) == 0 or c.get("reload_ok", 0) == 0 or c.get("replays_after_reload_rejected", 0) == 0:
         raise vf.Infra("vacuous run: %s" % c)
     ctx.assumptions += ["signatures are valid by construction (forgeries are C08); nonces are unique per schedule",
                         "a same-nonce request with ANOTHER timestamp that arrives after the first one's window closed is a new request (DESIGN.md C09)",
